@@ -31,9 +31,10 @@ AddObj == /\ ~done /\ Len(objs) < MaxObj /\ tps = <<>>
                                         file |-> IF hs = 10 THEN "f.wav" ELSE "", arity |-> IF Bit(ty, 128) THEN 6 ELSE 5])
           /\ UNCHANGED <<keys, tps, done>>
 AddTp == /\ ~done /\ Len(tps) < MaxTp
-         /\ \E t \in TimesSet, u \in {0, 1}, code \in {50000, 33333} :
+         /\ \E t \in TimesSet, u \in {0, 1}, code \in {50000, 33333}, sg \in {1, 0 - 1} :
               /\ (IF tps = <<>> THEN TRUE ELSE tps[Len(tps)].t <= t)
-              /\ tps' = Append(tps, [t |-> t, code |-> IF u = 1 THEN code ELSE 0 - (code \div 250), meter |-> 3 + u,
+              /\ (u = 1 => sg = 1)       \* an inherited point may carry a positive code (negative multiplier)
+              /\ tps' = Append(tps, [t |-> t, code |-> IF u = 1 THEN code ELSE sg * (0 - (code \div 250)), meter |-> 3 + u,
                                      ss |-> 1, si |-> u, vol |-> 40 + 10 * u, uninh |-> u, fx |-> 1 - u, arity |-> 8])
          /\ UNCHANGED <<keys, objs, done>>
 Finish == ~done /\ done' = TRUE /\ UNCHANGED <<keys, objs, tps>>
